@@ -962,6 +962,9 @@ def _close(x, y, rtol, atol):
     """|x - y| <= atol + rtol*|y| over the reals, literal tolerances"""
     x, y = SC.lift(x), SC.lift(y)
     d = x - y
+    if explore.EXP.exact_close:
+        # "reals, not floats": closeness tests are read as exact equality (tolerance 0)
+        return f_and(f_cmp(d.re, "=="), f_cmp(d.im, "=="))
     at, rt = Fraction(atol), Fraction(rtol)
     if y.is_const():
         ay = Fraction(math.sqrt(float(y.re.cval()) ** 2 + float(y.im.cval()) ** 2))
